@@ -201,9 +201,8 @@ impl<F> FuturesUnorderedBounded<F> {
 
         let mut count = 0;
         loop {
-            count += 1;
             // if we are in a pending only loop - let's break out.
-            if count > MAX {
+            if count >= MAX {
                 #[cfg(feature = "verif")]
                 crate::verif::emit(crate::verif::Probe::Point(crate::verif::P_BUDGET));
                 cx.waker().wake_by_ref();
@@ -226,6 +225,9 @@ impl<F> FuturesUnorderedBounded<F> {
                 }
                 crate::waker_list::ReadySlot::Ready((i, waker)) => {
                     if let Some(task) = self.tasks.get(i) {
+                        // only children that are actually polled count against the budget:
+                        // stale wake-ups of vacant slots are skipped for free
+                        count += 1;
                         let mut cx = Context::from_waker(&waker);
 
                         let res = poll_fn(task, &mut cx);
